@@ -327,3 +327,24 @@ case("c03-katakana-first-only", "break", ["C03"], [(CTX, "    for c in s.chars()
 case("c03-undefined-as-false", "break", ["C03"], [(CTX, "    let after = after(s, offset).ok_or(ContextRuleError::Undefined)?;\n    Ok(common::is_greek(after as u32))", "    let after = match after(s, offset) {\n        Some(c) => c,\n        None => return Ok(false),\n    };\n    Ok(common::is_greek(after as u32))")], "keraia at the end of the label answers false instead of Undefined", expect_key=["rule-logic"])
 case("c03-keep-while-to-loop", "keep", ["C03", "C01"], [(CTX, "    let mut i = offset - 1;\n    while common::is_transparent(cp) {\n        prev = before(s, i).ok_or(ContextRuleError::Undefined)?;\n        cp = prev as u32;\n        i -= 1;\n    }", "    let mut i = offset - 1;\n    loop {\n        if !common::is_transparent(cp) {\n            break;\n        }\n        prev = match before(s, i) {\n            Some(c) => c,\n            None => return Err(ContextRuleError::Undefined),\n        };\n        cp = prev as u32;\n        i -= 1;\n    }")], "while → loop/break, ? → match")
 case("c03-keep-dual-first", "keep", ["C03"], [(CTX, "    if !(common::is_left_joining(cp) || common::is_dual_joining(cp)) {", "    if !common::is_dual_joining(cp) && !common::is_left_joining(cp) {")], "De Morgan, other order")
+
+# ------------------------------------------------------------------ C17
+CSVF = TOOLS + "csv_parser.rs"
+case("c17-name-swapped", "break", ["C17"], [(CSVF, '        } else if word.eq("FREE_PVAL") {\n            Ok(DerivedProperty::FreePVal)', '        } else if word.eq("FREE_PVAL") {\n            Ok(DerivedProperty::IdDis)')], "FREE_PVAL read as ID_DIS (the registry test only compares pairs as sets?)", expect_key=["name-table"])
+case("c17-desc-trimmed", "break", ["C17"], [(CSVF, "            description: desc.to_string(),", "            description: desc.trim().to_string(),")], "description no longer verbatim", expect_key=["field-wiring"])
+case("c17-split-all-commas", "break", ["C17"], [(CSVF, "    let v: Vec<&str> = line.splitn(3, ',').collect();\n    if v.len() != 3 {", "    let v: Vec<&str> = line.split(',').collect();\n    if v.len() < 3 {")], "a description containing a comma is cut at it", expect_key=["field-wiring"])
+case("c17-pair-reversed", "break", ["C17"], [(CSVF, "    Ok((p1, p2))", "    Ok((p2, p1))")], "pair delivered in reverse textual order", expect_key=["selector"])
+case("c17-range-reversed", "break", ["C17"], [(CSVF, "    Ok(CodepointRange { start, end })", "    Ok(CodepointRange {\n        start: end,\n        end: start,\n    })")], expect_key=["selector"])
+case("c17-line-number-off", "break", ["C17"], [(CSVF, "        let line_number = self.line_number;", "        let line_number = self.line_number - 1;")], "errors report the previous line", expect_key=["line-numbers"])
+case("c17-header-not-skipped", "break", ["C17"], [(CSVF, "            if self.line_number > 1 {", "            if self.line_number > 0 {")], "header line delivered as a row (an error item)", expect_key=["line-numbers"])
+case("c17-group-typo", "break", ["C17"], [(CSVF, 'let end = caps["end"].parse()?;', 'let end = caps["stop"].parse()?;')], "indexing a capture group the regex does not define: panics on every range row (the registry test would catch it; the rule names it)", expect_key=["regex-groups"])
+case("c17-index-before-len", "break", ["C17"], [(CSVF, "    if v.len() != 3 {", "    if v.len() > 3 {")], "rows with fewer than three fields reach v[1]/v[2]: panic instead of an error", expect_key=["field-wiring"])
+case("c17-keep-match-names", "keep", ["C17"], [(CSVF, """        if word.eq("PVALID") {
+            Ok(DerivedProperty::PValid)
+        } else if word.eq("FREE_PVAL") {
+            Ok(DerivedProperty::FreePVal)
+        } else if""", """        if word == "FREE_PVAL" {
+            Ok(DerivedProperty::FreePVal)
+        } else if word.eq("PVALID") {
+            Ok(DerivedProperty::PValid)
+        } else if""")], "two comparisons reordered, == instead of eq")
